@@ -88,6 +88,37 @@ fn valid_tokens(t: &mut Tape, ctx: &Ctx) -> Vec<Tok> {
     tokens
 }
 
+/// An aggregate call under every form of expression (accepted or rejected with a located error - the parser's conversion of
+/// aggregate statements walks the expression forms one by one)
+fn aggregate_under(t: &mut Tape) -> String {
+    let agg = format!("{}({})", *t.pick(&["SUM", "COUNT", "MIN", "MAX", "AVG", "BOOL_OR", "ARRAY_AGG", "PERCENTILE", "STRING_AGG", "COUNT"]), *t.pick(&["x", "*", "x, 0.5", "x, ','", "DISTINCT x", "", "x + 1"]));
+    let wrapped = match t.draw(16) {
+        0 => format!("CASE WHEN x > 0 THEN {} ELSE 0 END", agg),
+        1 => format!("CASE WHEN {} > 0 THEN 1 ELSE 0 END", agg),
+        2 => format!("{} IN (1, 2)", agg),
+        3 => format!("x IN (1, {})", agg),
+        4 => format!("({}, 1)", agg),
+        5 => format!("array[{}]", agg),
+        6 => format!("{}[1]", agg),
+        7 => format!("x[{}]", agg),
+        8 => format!("{}::text", agg),
+        9 => format!("- {}", agg),
+        10 => format!("NOT {}", agg),
+        11 => format!("{} IS NOT NULL", agg),
+        12 => format!("EXTRACT(EPOCH FROM {})", agg),
+        13 => format!("abs({}) + least({}, 1)", agg, agg),
+        14 => format!("{} AND {}", agg, agg),
+        _ => format!("t.{}", agg),
+    };
+    match t.draw(5) {
+        0 => format!("SELECT {} FROM t", wrapped),
+        1 => format!("SELECT x, {} AS a FROM t GROUP BY x", wrapped),
+        2 => format!("SELECT x FROM t GROUP BY x HAVING {}", wrapped),
+        3 => format!("SELECT x FROM t WHERE {}", wrapped),
+        _ => format!("SELECT COUNT(*) FROM t GROUP BY {}", wrapped),
+    }
+}
+
 /// A definition whose patterns are each small enough but heavy together (whatever is built over all of them at once -
 /// a set, a combined automaton - has its own size limit)
 fn heavy_patterns(t: &mut Tape) -> String {
@@ -369,6 +400,11 @@ impl Property for C14 {
             case.text = if t.chance(1, 2) { format!("SELECT x FROM t WHERE {}", chain) } else { format!("SELECT {} FROM t", chain) };
             return case;
         }
+        if t.chance(1, 30) {
+            case.kind = "aggregate-under".into();
+            case.text = aggregate_under(t);
+            return case;
+        }
         if t.chance(1, 2000) {
             case.kind = "heavy-patterns".into();
             case.text = heavy_patterns(t);
@@ -449,6 +485,7 @@ impl Property for C14 {
             "nesting" => obs.label("gen-nesting"),
             "invalid-definition" => obs.label("gen-invalid-definition"),
             "heavy-patterns" => obs.label("gen-heavy-patterns"),
+            "aggregate-under" => obs.label("gen-aggregate-under"),
             _ => {}
         }
         if case.kind == "long-chain" {
